@@ -15,6 +15,7 @@ def run(ck, build):
     ck.rule("R-C13-REFUSE", "the 8-bit block counter is incremented by exactly one per block (mod 256); when it is 0 (255 blocks used) the whole remaining output is zero-filled and -1 returned, nothing generated")
     ck.rule("R-C13-STREAM", "for each of the 33 buffer positions: left-over bytes of the last block are served first from offset posn and the position advances by the bytes handed out; a generated "
             "block hands out min(32, remaining) bytes from its start; cursor/remaining advance in lock-step - so consecutive expand calls produce the one-shot byte stream")
+    ck.rule("R-C13-PRF", "premise: the PRF underneath is the documented TinyJAMBU-HMAC over the documented hash (all rules of C12, C10 and C11 re-run on the same IR)")
     ck.not_decided += ["output values; 'empty salt = 32 zero bytes' follows from HMAC's zero padding (C12 key-block rule with key length 0)", "HMAC itself is C12"]
     mod = Module(build.facts("H", "N0"))
     ck.config("H", "N0")
@@ -22,6 +23,9 @@ def run(ck, build):
     def ob(cond, rule, fn, cons, ok, bad, where=None):
         return ck.ob(cond, MAP[rule], fn, cons, ok, bad, where=where)
     kdflib.check_hkdf(ob, mod, "H/N0")
+    from . import hashlib
+    kdflib.hmac_premises(ck, mod, "R-C13-PRF")
+    hashlib.premises(ck, mod, "R-C13-PRF")
     ck.floor("R-C13", "obligations over position / counter / length classes", len(ck.obligations), 1500)
     fx = Module(build.fixture_facts(os.path.join(os.path.dirname(os.path.dirname(os.path.dirname(__file__))), "fixtures", "c13_bad.c")))
     sub = type(ck)("C13-fixture")
